@@ -87,6 +87,8 @@ namespace sim
         Run run;
         run.plan = &p;
         run.trace = trace;
+        run.callers = caller_threads_enabled ? callers_of(p.seed) : 0;
+        if (run.callers) stats().add("callers.runs_issued_from_three_threads");
         clear_pending();
         fstate() = FaultState();
         if (!c)
